@@ -483,7 +483,45 @@ def rule_e(ctx, out):
         raise AnalysisError(f"only {n} module-level names scanned")
 
 
+def rule_f(ctx, out):
+    """A mutable default argument is created once at import and shared by every call: when the function also writes to it, it is
+    process-wide state that survives from block to block."""
+    from ..core.absint import MUTATORS
+    reach = ctx.r.reachable([ctx.func("gasol_asm.execute_gasol")], by_name=True)
+    n = 0
+    for q, f in sorted(reach.items()):
+        a = f.node.args
+        pos = a.posonlyargs + a.args
+        pairs = list(zip(pos[len(pos) - len(a.defaults):], a.defaults)) + [(k, d) for k, d in zip(a.kwonlyargs, a.kw_defaults) if d is not None]
+        for arg, d in pairs:
+            n += 1
+            mutable = isinstance(d, (ast.Dict, ast.List, ast.Set)) or (isinstance(d, ast.Call) and call_name(d) in ("dict", "list", "set", "defaultdict", "OrderedDict"))
+            if not mutable:
+                out.ok()
+                continue
+            name = arg.arg
+            written = False
+            for x in own_nodes(f.node):
+                if isinstance(x, ast.Call) and isinstance(x.func, ast.Attribute) and x.func.attr in MUTATORS and is_name(x.func.value, name):
+                    written = True
+                if isinstance(x, (ast.Assign, ast.AugAssign, ast.Delete)):
+                    for t in (x.targets if isinstance(x, (ast.Assign, ast.Delete)) else [x.target]):
+                        if isinstance(t, ast.Subscript) and is_name(t.value, name):
+                            written = True
+                if isinstance(x, ast.Call) and any(is_name(y, name) for y in x.args) and call_name(x) == f.name:
+                    pass    # handed on to the recursive call: same object
+            if written:
+                out.bad(f"mutable-default-argument:{f.qual.split('.', 1)[-1]}:{name}", f"{f.qual} has the mutable default `{name}={norm(d)}` and writes to it: the "
+                        f"object is created once at import, so what one block stores is seen while the next block is processed", where(f, d))
+            else:
+                out.ok({"function": f.qual, "default": f"{name}={norm(d)}", "never_written": True})
+    out.samples.append({"default_arguments_examined": n})
+    if n < 20:
+        raise AnalysisError(f"only {n} default arguments examined")
+
+
 RULES = [
+    ("C12.f", "no written mutable default argument", 20, rule_f),
     ("C12.e", "no other module keeps run-time state across blocks", 25, rule_e),
     ("C12.a", "no stale module global can reach a specification", 55, rule_a),
     ("C12.b", "get_sfs_dict returns this block's specifications", 2, rule_b),
